@@ -1,4 +1,4 @@
-import Proofs.Timeout
+import Proofs.TimeoutLive
 
 /-!
 # C14 — Timeouts cancel cooperatively and every job ends in a terminal status
@@ -144,19 +144,35 @@ theorem C14_complete (W : Nat) (specs : List Spec) (hist : List SCall)
 
 /-! ### the search returns -/
 
-/-- **C14 (the search returns — partial).**
-Full statement: *for every schedule, `search()` returns after finitely many steps once every running
-evaluation has returned* (the waiting part of every gather terminates, i.e. `advance` never answers
-`false`, and the loop stops).  Proved here:
+/-- **C14 (the search returns).**  For every number of workers `W ≥ 1`, every family of cooperative
+run-functions, every history of `search()` calls that returned and every environment, the next
+`search()` call never blocks: no wait inside it is left without a running evaluation to wait for and
+the drain loop always makes progress (`hang` is impossible), and it never raises "No jobs pending"
+(`noJobs`).  With a schedule that respects the contract of `asyncio.wait` and is long enough
+(`badEnv` / `envExhausted` excluded) it therefore returns — by budget, cap or timeout.  Together with
+`C14_returns_steps` (each wait ends exactly at the instant the awaited evaluation returns; nothing is
+submitted after an expired clock reading) this is "the search returns once the running evaluations
+have returned". -/
+theorem C14_returns (W : Nat) (hW : 1 ≤ W) (specs : List Spec) (hist : List SCall)
+    (hh : ∀ st ∈ (runSearches (init W true specs) hist).2, SettledStop st)
+    (c : Call) (reps : List (List Nat)) (drainRep : List Nat) :
+    let r := search (runSearches (init W true specs) hist).1 c reps drainRep
+    r.2 ≠ .hang ∧ r.2 ≠ .noJobs ∧
+    (r.2 ≠ .badEnv → r.2 ≠ .envExhausted → SettledStop r.2) := by
+  intro r
+  have hidle := runSearches_idle hist (init W true specs) (idle_init W hW specs) hh
+  obtain ⟨h1, h2, _⟩ := search_live _ c reps drainRep hidle
+  refine ⟨h1, h2, ?_⟩
+  intro h3 h4
+  unfold SettledStop
+  cases hr : r.2 <;> simp_all [r]
+
+/-- **C14 (how the search returns: the steps).**
 (a) the loop submits nothing after the first clock reading at or past the deadline;
 (b) a wait never blocks while an evaluation is running: whenever some job is RUNNING/CANCELLING the
     next event is the return of the one that returns first, and the clock moves to exactly that
-    instant (never past it);
-(c) all functions of the model are total: every call of `search` yields a stop reason.
-Missing: that the jobs a gather waits for are never *all* queued behind the semaphore (liveness of
-the FIFO hand-off) and the bound of `advance`'s fuel by the number of jobs; on every schedule the
-correspondence run exercises, the model never answered `hang`. -/
-theorem C14_returns_partial :
+    instant (never past it). -/
+theorem C14_returns_steps :
     -- (a)
     (∀ (strict : Bool) (target : Int) (s : Ev) (nAsk : Nat) (rep : List Nat) (rest : List (List Nat)),
       (target < 0 ∨ numEvals strict s < target) →
